@@ -690,7 +690,7 @@ func (s *Sched) enumerate() ([]trans, bool) {
 			ranges = append(ranges, trange{cur, 0, len(out)})
 		}
 	}
-	anyQ := false
+	anyQ := cur != nil && !cur.done && cur.op.kind == opQuiesce
 	for _, t := range s.threads {
 		if t.done || t.exited || t == cur {
 			continue
